@@ -20,7 +20,7 @@ def rk(td, k):
     return k if k in td.keys() else key_tuple(k)
 
 
-def make_td(batch, names=None, feats=((2,), (), (1,)), dtype=torch.int64, lazy=False, locked=False):
+def make_td(batch, names=None, feats=((2,), (), (1,)), dtype=torch.int64, lazy=False, locked=False, stack_dim=0):
     """leaf j = arange(numel) + 1000*j, shaped batch+feat_j (the provenance the Lean driver uses)"""
     from tensordict import LazyStackedTensorDict, TensorDict
     batch = tuple(batch)
@@ -35,7 +35,7 @@ def make_td(batch, names=None, feats=((2,), (), (1,)), dtype=torch.int64, lazy=F
     if names is not None:
         td.names = list(names)
     if lazy:
-        td = LazyStackedTensorDict(*[t.clone() for t in td.unbind(0)], stack_dim=0)
+        td = LazyStackedTensorDict(*[t.clone() for t in td.unbind(stack_dim)], stack_dim=stack_dim)
     if locked:
         td.lock_()
     return td
